@@ -30,15 +30,15 @@ CONTROL = re.compile(r"[\x00-\x1f\x7f]")
 
 def floors(tier):
     q = tier == "quick"
-    return {"c19.name_verdict": 20000 if q else 1500000, "c19.name_exception": 25000 if q else 2000000,
-            "c19.txt_independent": 3000 if q else 100000, "c19.txt_library": 3000 if q else 100000}
+    return {"c19.name_verdict": 400000 if q else 15000000, "c19.name_exception": 500000 if q else 20000000,
+            "c19.txt_independent": 30000 if q else 2000000, "c19.txt_library": 30000 if q else 2000000}
 
 
 def plan(tier, seed):
     if tier == "quick":
-        n, per, exh, dicts = 16, 1500, 5, 350
+        n, per, exh, dicts = 16, 12000, 6, 2500
     else:
-        n, per, exh, dicts = 64, 25000, 8, 4000
+        n, per, exh, dicts = 64, 250000, 7, 40000
     return [{"seed": seed, "shard": i, "n_shards": n, "per": per, "exh": exh, "dicts": dicts, "tier": tier} for i in range(n)]
 
 
